@@ -357,6 +357,54 @@ func runC19(p *Prog, r *Report, tier string) {
 							mbytes = e
 						}
 						for _, cnd := range cands {
+							// the frame allocated at its final size: make([]byte, 4+len(bytes)); PutUint32(frame[:4], uint32(len(bytes)));
+							// copy(frame[4:], bytes) - selected under the delimit flag
+							if ms, isMS := cnd.(*ssa.MakeSlice); isMS && ms.Parent() == snd {
+								okSize := false
+								if add, ok := ms.Len.(*ssa.BinOp); ok && add.Op == token.ADD {
+									for _, pr := range [][2]ssa.Value{{add.X, add.Y}, {add.Y, add.X}} {
+										k, isK := constInt(pr[0])
+										lv, isL := lenOfValue(pr[1])
+										if isK && k == 4 && isL && lv == mbytes {
+											okSize = true
+										}
+									}
+								}
+								okPut, okCopy, okFlag := false, false, false
+								for _, ps := range putSites(snd) {
+									if ps.Width == 4 && ps.Order == "BigEndian" && sliceRoot(ps.In.Call.Args[1]) == ssa.Value(ms) && ps.Low <= 0 {
+										if cv, ok := ps.Val.(*ssa.Convert); ok {
+											if sv, isL := lenOfValue(cv.X); isL && sv == mbytes {
+												okPut = true
+											}
+										}
+									}
+								}
+								eachInstr(snd, func(x ssa.Instruction) {
+									c, ok := x.(*ssa.Call)
+									if !ok {
+										return
+									}
+									if b, ok := c.Call.Value.(*ssa.Builtin); ok && b.Name() == "copy" && c.Call.Args[1] == mbytes {
+										if sl, ok := c.Call.Args[0].(*ssa.Slice); ok && sl.X == ssa.Value(ms) {
+											if lo, ok := constInt(sl.Low); ok && lo == 4 {
+												okCopy = true
+											}
+										}
+									}
+								})
+								for _, gd := range guardsOf(ms.Block()) {
+									if pa, ok := gd.If.Cond.(*ssa.Parameter); ok && pa.Parent() == snd && gd.Succ == 0 {
+										okFlag = true
+									}
+								}
+								if okSize && okPut && okCopy && okFlag {
+									valOK = true
+								} else {
+									whyV = fmt.Sprintf("the frame built at its final size is not 4-byte big-endian length + marshalled bytes under the delimit flag (size=%v prefix=%v payload=%v flag=%v)", okSize, okPut, okCopy, okFlag)
+								}
+								continue
+							}
 							ap, ok := cnd.(*ssa.Call)
 							if !ok {
 								continue
@@ -521,6 +569,30 @@ func runC19(p *Prog, r *Report, tier string) {
 				}
 			}
 		})
+		// a frame may be refused for being too short only when it is shorter than the prefix: a payload of exactly 4 bytes is
+		// a valid frame (an empty protobuf message: every field at its default)
+		refused := ""
+		wc := &absWalker{MaxPaths: 2048}
+		wc.OnEnd = func(st *absState, last ssa.Instruction) {
+			rt, ok := last.(*ssa.Return)
+			if !ok || len(rt.Results) == 0 {
+				return
+			}
+			isNil, known := st.nilness(rt.Results[len(rt.Results)-1])
+			if !known || isNil {
+				return
+			}
+			for sym, hi := range st.hi {
+				if strings.HasPrefix(sym, "len(") && hi >= delim && hi < absInf {
+					refused = fmt.Sprintf("values of up to %d bytes are refused", hi)
+				}
+			}
+		}
+		if len(dc.Blocks) > 0 {
+			wc.walk(newAbsState(), dc.Blocks[0], 0)
+		}
+		r.Check(refused == "", "R-TABLE.consumer", fnKey(dc)+": only frames shorter than the prefix are refused for their length", p.pos(dc.Pos()), "no error exit for a value of msgDelimitLen bytes or more",
+			refused+": the producer publishes an empty protobuf message (all fields default) as exactly the 4 prefix bytes, and the consumer must decode it", true)
 		r.Check(delim == 4 && okStrip, "R-TABLE.consumer", fnKey(dc)+": strips the 4-byte delimiter", p.pos(dc.Pos()), "value[msgDelimitLen:], msgDelimitLen == 4 == producer prefix", "the consumer does not strip exactly the 4 prefix bytes the producer adds", true)
 		r.Check(okUnm, "R-TABLE.consumer", fnKey(dc)+": decodes with proto.Unmarshal", p.pos(dc.Pos()), "proto.Unmarshal resets the destination before decoding",
 			"the consumer does not decode with proto.Unmarshal (e.g. merge semantics on a reused message keep field values of earlier records)", true)
@@ -590,6 +662,18 @@ func checkSaramaConfig(p *Prog, r *Report, rule string) {
 		}
 		n++
 		name := strings.Join(path, ".")
+		// the two reporting switches follow the caller's flags exactly: sarama's own defaults differ (Return.Errors is true),
+		// and an error / success channel that is enabled but never drained stops the producer after its buffer fills up
+		if flag, isRet := map[string]string{"Producer.Return.Successes": "KafkaLogSuccesses", "Producer.Return.Errors": "KafkaLogErrors"}[name]; isRet {
+			_, vf, _, okF := loadedField(st.Val)
+			q := &pathQuery{discharge: func(x ssa.Instruction) bool { return x == in }, terminal: func(x ssa.Instruction) bool {
+				rt, ok := x.(*ssa.Return)
+				return ok && !isErrorReturn(rt)
+			}, noExit: true}
+			_, skipped := q.findFromBlock(f.Blocks[0])
+			r.Check(okF && vf == flag && !skipped, rule+".return-flags", fnKey(f)+": sarama Config."+name+" = input."+flag, p.instrPos(in), "assigned from the caller's flag on every path",
+				"the switch is not set to the caller's "+flag+" on every path (set only when true, or to a constant): sarama's default stays in force when the flag is off, the unread channel fills up after a few hundred reports and the producer stops accepting records", true)
+		}
 		if allowed[name] {
 			r.OK(rule, fnKey(f)+": sets sarama Config."+name, p.instrPos(in), "audited field", true)
 		} else {
